@@ -393,9 +393,13 @@ def run(ctx: Ctx, rs: RuleSet, tier: str):
       args = kwarg(c, 'args')
       kws = kwarg(c, 'keywords')
       node = vc.params[1]
+      callee = unparse(args.elts[0]) if isinstance(
+          args, ast.List) and args.elts else ''
+      callee_visited = callee == f'{vc.params[0]}.visit({node}.func)'
       ok = (func is not None and '_CALL_HANDLER_ID' in unparse(func) and
-            isinstance(args, ast.List) and unparse(args.elts[0]) ==
-            f'{node}.func' and 'self.visit(arg)' in unparse(args) and
+            isinstance(args, ast.List) and callee in (
+                f'{node}.func', f'{vc.params[0]}.visit({node}.func)') and
+            'self.visit(arg)' in unparse(args) and
             f'{node}.args' in unparse(args) and kws is not None and
             'self.visit(keyword)' in unparse(kws) and
             f'{node}.keywords' in unparse(kws))
@@ -403,6 +407,15 @@ def run(ctx: Ctx, rs: RuleSet, tier: str):
            'every call becomes handler(<callee>, *visited args, **visited '
            'keywords); no path returns the original call',
            ctx.loc(vc, vc.node) if vc else '')
+  if vc is not None and ok:
+    rs.check(callee_visited, rule, f'{TR}.visit_Call:callee-visited',
+             'the callee expression is rewritten too' if callee_visited else
+             f'the callee expression `{node}.func` is handed to the handler '
+             'unvisited: calls and attribute accesses inside it are not '
+             'rewritten, so `Holder(Builder(3).make(2))` really runs '
+             '`Builder(3)` while as_buildable() is evaluated (as_buildable '
+             'must invoke no configurable callable)',
+             ctx.loc(vc, vc.node))
   # observation: grammar classes without a visit method
   grammar = sorted(n for n in dir(ast) if isinstance(getattr(ast, n), type) and
                    issubclass(getattr(ast, n), (ast.stmt, ast.expr)) and
